@@ -3068,6 +3068,12 @@ where
             if attempt > 0 {
                 #[cfg(delaunay_verif)]
                 crate::verif::tick::tick("insert.perturbation_retry");
+                #[cfg(delaunay_verif)]
+                crate::verif::tick::iter(
+                    "insert.perturbation_retry",
+                    attempt,
+                    max_perturbation_attempts,
+                );
                 let mut perturbed_coords = original_coords;
                 // Single local-scale perturbation:
                 // - f64: 1e-8 × local scale
@@ -3985,6 +3991,11 @@ where
                     #[cfg(delaunay_verif)]
                     {
                         crate::verif::tick::tick("insert.cavity_iter");
+                        crate::verif::tick::iter(
+                            "insert.cavity_iter",
+                            iterations,
+                            MAX_CAVITY_ITERATIONS,
+                        );
                         if crate::verif::knob::is_set("insert.max_cavity_iterations")
                             && iterations
                                 > crate::verif::knob::get(
@@ -4244,6 +4255,11 @@ where
             #[cfg(delaunay_verif)]
             {
                 crate::verif::tick::tick("insert.facet_repair_iter");
+                crate::verif::tick::iter(
+                    "insert.repair_iter",
+                    iteration + 1,
+                    MAX_REPAIR_ITERATIONS,
+                );
                 if crate::verif::knob::is_set("insert.max_repair_iterations")
                     && iteration
                         >= crate::verif::knob::get(
@@ -4949,6 +4965,11 @@ where
                     #[cfg(delaunay_verif)]
                     {
                         crate::verif::tick::tick("insert.hull_repair_iter");
+                        crate::verif::tick::iter(
+                            "insert.repair_iter",
+                            iteration + 1,
+                            MAX_REPAIR_ITERATIONS,
+                        );
                         if crate::verif::knob::is_set("insert.max_repair_iterations")
                             && iteration
                                 >= crate::verif::knob::get(
